@@ -368,7 +368,7 @@ def canon_cond(program, atom, label, blk=None):
                 if cv is not None:
                     res.append(("variant", T.strip(x), cv, p, blk))
                     return res
-            res.append(("cmp", "Eq", T.strip(args[0]), T.strip(args[1]), p, blk))
+            res.append(("cmp", "Eq", T.rewrap(T.strip(args[0])), T.rewrap(T.strip(args[1])), p, blk))
             return res
         for (nm, op) in (("::lt", "Lt"), ("::le", "Le"), ("::gt", "Gt"), ("::ge", "Ge")):
             if "PartialOrd" in callee and callee.endswith(nm) and len(args) == 2:
